@@ -161,8 +161,10 @@ pub fn fill_path_impl(
         ..LineEdge::default()
     }));
 
-    start_y <<= shift_edges_up;
-    stop_y <<= shift_edges_up;
+    // Saturate instead of wrapping: bounds around +-1e9 overflow an i32 when supersampled,
+    // and the wrapped value escaped the clamping to the clip below.
+    start_y = start_y.saturating_mul(1 << shift_edges_up);
+    stop_y = stop_y.saturating_mul(1 << shift_edges_up);
 
     let top = shifted_clip.shifted().y() as i32;
     if !path_contained_in_clip && start_y < top {
